@@ -1,6 +1,6 @@
 SPECIFICATION Spec
 CONSTANTS Shared = FALSE
 MaxCalls = 3
-Form <- FormInOut
+Forms <- AllForms
 INVARIANT EachCallOwnInput
 CHECK_DEADLOCK FALSE
